@@ -24,6 +24,18 @@ Lemma gen_refusal : execute_failed base_invoke_result = true /\ execute_failed e
                     execute_failed enqueue_local_result = false.
 Proof. repeat split; reflexivity. Qed.
 
+Lemma gen_join_first : (stop_joins_balancer_first =? 1)%Z = true. Proof. reflexivity. Qed.
+Lemma gen_stop_order : stop_clears_running_first = 1%Z /\ stop_markers_before_worker_join = 1%Z /\ stop_worker_wait = 1%Z.
+Proof. repeat split; reflexivity. Qed.
+Lemma early_join_eq : forall c, early_join c = has_balancer c.
+Proof. intros c. unfold early_join. rewrite gen_join_first. apply andb_true_r. Qed.
+Lemma late_join_false : forall c, late_join c = false.
+Proof. intros c. unfold late_join. rewrite gen_join_first. apply andb_false_r. Qed.
+Lemma stop_loop_eq : forall c i, stop_loop c i = if stop_push_more i (Z.of_nat (nworkers c)) then EStopPush i else EStopJoin 0.
+Proof. intros c i. unfold stop_loop. now rewrite late_join_false. Qed.
+Lemma gen_accepts : execute_failed enqueue_result = false /\ execute_failed enqueue_local_result = false.
+Proof. split; reflexivity. Qed.
+
 Definition orders_ok : bool :=
   match sites_start, sites_stop, sites_keep_balance, sites_newthread_invoke, sites_newthread_join with
   | [(KLoad, a1, _); (KStore, a2, _)], [(KLoad, b1, _); (KStore, b2, _)], [(KLoad, c1, _)],
@@ -70,14 +82,14 @@ Ltac destr_step H :=
   repeat match type of H with
          | context [match ?x with _ => _ end] => let E := fresh "E" in destruct x eqn:E; try discriminate H
          end;
-  try discriminate H; inversion H; subst; clear H.
+  try discriminate H; inversion H; subst; clear H; rewrite ?early_join_eq in *.
 
 (* every step changes exactly the stepping thread, keeps its role, the thread layout and the queue count *)
 Lemma step_shape : forall c s t s', step c s t = Some s' ->
   exists th th', nth_error (threads s) t = Some th /\ threads s' = set_nth t th' (threads s) /\
                  trole th' = trole th /\ nex s' = nex s /\ length (lqs s') = length (lqs s).
 Proof.
-  intros c s t s' H. destr_step H; unfold stop_join_next, note_accept;
+  intros c s t s' H. destr_step H; unfold stop_join_next, submit_done, note_refuse, note_accept;
     repeat match goal with
            | |- context [if ?b then _ else _] => destruct b
            | |- context [match ?b with _ => _ end] => destruct b
@@ -138,7 +150,7 @@ Lemma step_started : forall c s t s', step c s t = Some s' ->
   exists th id w, nth_error (threads s) t = Some th /\ trole th = RWorker w /\ tpc th = WBegin id /\
                   started s' = started s ++ [(id, w)].
 Proof.
-  intros c s t s' H. destr_step H; unfold stop_join_next, note_accept;
+  intros c s t s' H. destr_step H; unfold stop_join_next, submit_done, note_refuse, note_accept;
     repeat match goal with
            | |- context [if ?b then _ else _] => destruct b
            | |- context [match ?b with _ => _ end] => destruct b
@@ -180,7 +192,7 @@ Lemma na_stop_called : forall s it b, stop_called (note_accept s it b) = stop_ca
 Lemma na_stop_returned : forall s it b, stop_returned (note_accept s it b) = stop_returned s. Proof. intros s [|] b; reflexivity. Qed.
 
 Ltac simp_st :=
-  unfold stop_join_next in *;
+  unfold stop_join_next, submit_done in *; rewrite ?(proj1 gen_accepts), ?(proj2 gen_accepts) in *;
   repeat match goal with
          | |- context [if ?b then set_thread _ _ _ else _] => destruct b eqn:?
          | H : context [if ?b then set_thread _ _ _ else _] |- _ => destruct b eqn:?
@@ -199,11 +211,11 @@ Ltac split_thread Hn :=
   apply nth_error_set_nth in Hn; destruct Hn as [[? ?]|[? Hn]]; subst.
 
 Definition stop_pc (p : pc) : bool :=
-  match p with EStopStore | EStopJoinBal | EStopPush _ | EStopFill _ _ | EStopJoin _ => true | _ => false end.
-Definition phase1 (p : pc) : bool := match p with EStopPush _ | EStopFill _ _ | EStopJoin _ => true | _ => false end.
+  match p with EStopStore | EStopJoinBal | EStopJoinBalLate | EStopPush _ | EStopFill _ _ | EStopJoin _ => true | _ => false end.
+Definition phase1 (p : pc) : bool := match p with EStopPush _ | EStopFill _ _ | EStopJoin _ | EStopJoinBalLate => true | _ => false end.
 Definition role_pc_ok (r : role) (p : pc) : bool :=
   match r, p with
-  | RExt, (EIdle | EFill _ _ | EStopStore | EStopJoinBal | EStopPush _ | EStopFill _ _ | EStopJoin _) => true
+  | RExt, (EIdle | EFill _ _ | EStopStore | EStopJoinBal | EStopJoinBalLate | EStopPush _ | EStopFill _ _ | EStopJoin _) => true
   | RWorker _, (WLoop | WSteal _ | WTake | WPop _ | WBegin _ | WRun _ _ | WGTake _ _ _ | WFill _ _ _ _ | WExit) => true
   | RBal, (BCheck | BSweep _ | BTake _ _ | BFill _ _ _ | BExit) => true
   | _, _ => false
@@ -229,7 +241,7 @@ Proof.
   - intros t th H. apply nth_error_In, init_threads_in in H. destruct H as [[-> ->]|[(w & -> & ->)|[-> ->]]]; reflexivity.
   - intros s t s' _ IH Hs t0 th0 Hn. destr_step Hs; simp_st; split_thread Hn; eauto; cbn;
       repeat match goal with H : trole _ = _ |- _ => rewrite H end; auto using dispatch_worker_pc;
-      unfold stop_loop, after_steal, after_sweep;
+      rewrite ?stop_loop_eq; unfold after_steal, after_sweep;
       repeat match goal with |- context [if ?b then _ else _] => destruct b end; auto.
 Qed.
 
@@ -322,7 +334,7 @@ Proof.
     cbn [tpc trole goto next_op];
     repeat match goal with H : tpc _ = _ |- _ => rewrite H end;
     rewrite ?phase1_dispatch, ?nostop_app, ?nostop_fill, ?fun_not_stop, ?wake_not_stop, ?andb_true_r;
-    unfold stop_loop, after_steal, after_sweep;
+    rewrite ?stop_loop_eq; unfold after_steal, after_sweep;
     repeat match goal with |- context [if ?b then _ else _] => destruct b eqn:? end;
     cbn [phase1];
     repeat split; try discriminate; try (intros; discriminate); auto; try tauto.
@@ -512,7 +524,7 @@ Definition gq_rel (g g' : queue) (o : gop) : Prop :=
 Ltac kill_gen :=
   try (rewrite (proj2 gen_local_first) in *; discriminate); try (rewrite (proj2 gen_pop_needed) in *; discriminate).
 Ltac clean_hyps :=
-  unfold stop_loop, after_steal, after_sweep in *;
+  rewrite ?stop_loop_eq in *; unfold after_steal, after_sweep in *;
   repeat match goal with H : context [if ?b then _ else _] |- _ => destruct b eqn:? end;
   try discriminate;
   repeat match goal with
@@ -616,7 +628,7 @@ Proof.
     repeat match goal with it : item |- _ => destruct it end;
     cbn [tpc trole goto next_op note_accept acc_before acc_local finished stop_called];
     repeat match goal with H : tpc _ = _ |- _ => rewrite H end;
-    rewrite ?dispatch_fun; unfold app_slot, stop_loop, after_steal, after_sweep;
+    rewrite ?dispatch_fun; rewrite ?stop_loop_eq; unfold app_slot, after_steal, after_sweep;
     repeat match goal with |- context [if ?b then _ else _] => destruct b eqn:? end;
     rewrite ?pend_dispatch, ?held_dispatch_mark;
     repeat split; intros;
@@ -1191,7 +1203,7 @@ Lemma step_tokens : forall c s t s',
    (forall id, In id (run_id (tpc th)) -> In id (run_id (tpc th')) \/ In id (finished s')).
 Proof.
   intros c s t s' Hw H. destr_step H; kill_gen; simp_st;
-    unfold stop_loop, after_steal, after_sweep;
+    rewrite ?stop_loop_eq; unfold after_steal, after_sweep;
     repeat match goal with |- context [if ?b then _ else _] => destruct b eqn:? end;
     eexists; eexists;
     (split; [reflexivity|]; split; [reflexivity|]);
@@ -1396,7 +1408,7 @@ Lemma step_acc : forall c s t s', step c s t = Some s' ->
     (forall k p id, tpc th' = BFill k p (IFun id) -> tpc th = BTake k (IFun id)).
 Proof.
   intros c s t s' H. destr_step H; kill_gen; simp_st;
-    unfold stop_loop, after_steal, after_sweep;
+    rewrite ?stop_loop_eq; unfold after_steal, after_sweep;
     repeat match goal with |- context [if ?b then _ else _] => destruct b eqn:? end;
     eexists; eexists;
     (first [ exists GSame; eexists; split; [reflexivity|]; split; [reflexivity|]; split; [reflexivity|]
@@ -1552,6 +1564,22 @@ Proof.
   intros c progs s Hwf Hr. split; [eapply ex_nodup_started; eauto|].
   intros id w Hin. split; [eapply ex_started_accepted; eauto | eapply ex_started_on_worker; eauto].
 Qed.
+
+(* ======================================================================================== *)
+(* refused submissions: enqueue_task reports success on both of its paths (regenerated results), so the pool
+   never refuses; a submission that had been refused would be one that never starts *)
+Lemma step_refused : forall c s t s', step c s t = Some s' -> refused s' = refused s.
+Proof.
+  intros c s t s' H. destr_step H; simp_st;
+    repeat match goal with |- context [note_accept _ ?i _] => is_var i; destruct i end; reflexivity.
+Qed.
+Lemma ex_none_refused : forall c progs s, Reach c progs s -> refused s = [].
+Proof.
+  intros c progs. apply (reach_ind c progs (fun s => refused s = [])); [reflexivity|].
+  intros s t s' _ IH Hs. now rewrite (step_refused _ _ _ _ Hs).
+Qed.
+Lemma ex_failed_never_runs : forall c progs s id, Reach c progs s -> In id (refused s) -> ~ In id (map fst (started s)).
+Proof. intros c progs s id Hr Hin. rewrite (ex_none_refused _ _ _ Hr) in Hin. destruct Hin. Qed.
 
 (* non-vacuity: one worker, local capacity 1, task 0 spawns task 1; submit 0 then stop() *)
 Definition demo_cfg : config :=
